@@ -143,7 +143,7 @@ theorem calm_after_tick (st : St) (hg : Good st) (hs : Shut st) (hq : st.ready =
           · exact hc
           · exact absurd hc (hnr r hrm)
         rw [huniq r hrm this]
-    have hstep : step st .tick = settle settleFuel (pre st .tick).1 := by
+    have hstep : step st .tick = settle (settleFuel (pre st .tick).1) (pre st .tick).1 := by
       rw [step_eq_pre]
       have : (pre st .tick).2 = true := by simp only [pre, hnd]
       rw [this]; rfl
